@@ -431,6 +431,59 @@ func TestVerifC08(t *testing.T) {
 	defer f.Close()
 	line := func(parts ...string) { f.WriteString(strings.Join(parts, "\t") + "\n") }
 
+	// the collection sweep (zz_verif_c08_sweep_test.go) and the schedule families (zz_verif_c08_conc_test.go), each in
+	// one child process of its own; their lines are copied
+	for _, mode := range []string{"sweep", "conc"} {
+		if only := os.Getenv("VERIF_C08_ONLY"); only != "" && only != mode {
+			continue
+		}
+		root, _ := os.MkdirTemp(base, mode+"-")
+		report := filepath.Join(base, mode+".tsv")
+		run := map[string]string{"sweep": "^TestVerifC08Sweep$", "conc": "^TestVerifC08Conc$"}[mode]
+		cmd := exec.Command(self, "-test.run", run, "-test.count=1")
+		cmd.Env = append(os.Environ(), "VERIF_C08_CHILD="+mode, "VERIF_ROOT="+root, "VERIF_REPORT="+report, "GOMAXPROCS=8")
+		done := make(chan error, 1)
+		var out []byte
+		go func() {
+			var err error
+			out, err = cmd.CombinedOutput()
+			done <- err
+		}()
+		died := ""
+		select {
+		case err := <-done:
+			if err != nil {
+				died = "died: " + err.Error()
+			}
+		case <-time.After(600 * time.Second):
+			cmd.Process.Kill()
+			<-done
+			died = "hung"
+		}
+		b, _ := os.ReadFile(report)
+		f.Write(b)
+		if !strings.Contains("\n"+string(b), "\n"+mode+"done\t") {
+			tail := string(out)
+			if i := strings.Index(tail, "fatal error"); i >= 0 {
+				tail = tail[i:]
+			} else if i := strings.Index(tail, "panic:"); i >= 0 {
+				tail = tail[i:]
+			}
+			if len(tail) > 400 {
+				tail = tail[:400]
+			}
+			last := ""
+			if ls := strings.Split(strings.TrimSpace(string(b)), "\n"); len(ls) > 0 {
+				last = ls[len(ls)-1]
+			}
+			line("ORACLE", "terminates", mode, "the "+mode+" child did not finish ("+died+"); last line: "+strings.ReplaceAll(last, "\t", " ")+"; output: "+strings.ReplaceAll(strings.ReplaceAll(tail, "\n", " | "), "\t", " "))
+		}
+		os.RemoveAll(root)
+	}
+	if os.Getenv("VERIF_C08_ONLY") != "" {
+		return
+	}
+
 	nrand, _ := strconv.Atoi(os.Getenv("VERIF_NRAND"))
 	progs := append(c08Programs(), c08RandomPrograms(rng, nrand)...)
 	for pi, p := range progs {
